@@ -410,5 +410,19 @@ func (s *Solver) solveAll(reports []*FuncReport, filter func(name string) bool, 
 		}(i, j)
 	}
 	wg.Wait()
+	// second pass: obligations that ended without a definite answer are re-run one at a time with a longer timeout,
+	// so that a loaded machine does not turn a slow proof into an alarm
+	saved := s.timeout
+	s.timeout = saved * 4
+	for i, j := range jobs {
+		r := results[i]
+		if r != nil && r.Status == "failed" && r.Kind != "vacuity" && (r.Answer == "timeout" || r.Answer == "unknown") {
+			r2 := s.solve(j.d, j.o)
+			r2.TimeS += r.TimeS
+			r2.Info = strings.TrimSpace(r2.Info + " (second pass)")
+			results[i] = r2
+		}
+	}
+	s.timeout = saved
 	return results
 }
